@@ -86,8 +86,12 @@ class Machine:
         self.node = Node(self.db_dir, self.world, self.coin, self.limit, chooser=self.chooser,
                          flush_plan=self.flush_plan, max_latency=2)
         self.node.daemon.on_call = self.on_daemon_call
+        self.prepare_node()
         self.node.start()
         await self.node.opened()
+
+    def prepare_node(self):
+        pass
 
     def on_daemon_call(self, name):
         for d in list(self.deferred):
